@@ -134,6 +134,43 @@ func run(cfg lib.Cfg) error {
 		}
 		judge(sc, "corpus-integration-saved-twice")
 	}
+	// corpus: a configuration whose table.columns ALREADY lists stamp columns (ig_name,
+	// src_name, ...) without block entries for them - written from the schema of an existing
+	// table.  Through the real ValidateFix every row must still be stamped with the pair that
+	// produced it: two integrations share a table (or not), both index, a reorg makes each
+	// unwind; no row may be left that belongs to nobody.
+	for v, c := range []struct {
+		shape  string
+		shared bool
+		pre    []string
+	}{
+		{"log", true, []string{"ig_name", "src_name"}},
+		{"log", true, []string{"src_name"}},
+		{"tx", false, []string{"ig_name", "src_name", "block_num", "tx_idx"}},
+		{"log", true, []string{"ig_name", "block_num", "log_idx"}},
+	} {
+		t2 := "t2"
+		if c.shared {
+			t2 = "t1"
+		}
+		sc := &ts.Scenario{Name: fmt.Sprintf("corpus-stamp-columns-predeclared-%d", v), Seed: uint64(90 + v), Head: 8, SnapEvery: true,
+			Gen:  ts.GenOpts{MaxTxs: 2, MaxLogs: 3, Decoys: true, EmptyProb: 0},
+			Srcs: []ts.SrcSpec{{Name: "main", ChainID: 1, Batch: 2, Conc: 1, URL: "http://main.invalid"}},
+			IGs: []ts.IGSpec{
+				{Name: "ig1", Shape: c.shape, Table: "t1", AddrFlt: c.shape == "log", PreCols: c.pre, Sources: []ts.SrcRef{{Name: "main", Start: 1}}},
+				{Name: "ig2", Shape: c.shape, Table: t2, Sources: []ts.SrcRef{{Name: "main", Start: 1}}},
+			}}
+		for k := 0; k < 4; k++ {
+			sc.Acts = append(sc.Acts, ts.Act{Do: "step", Tid: 1}, ts.Act{Do: "step", Tid: 2})
+		}
+		sc.Acts = append(sc.Acts, ts.Act{Do: "reorg", Fork: 6, Len: 4})
+		// ig1 unwinds and re-indexes while ig2's step is open, then the other way round
+		sc.Acts = append(sc.Acts, ts.Act{Do: "advuntil", Tid: 2, Call: "Commit"}, ts.Act{Do: "step", Tid: 1}, ts.Act{Do: "drain"})
+		for k := 0; k < 4; k++ {
+			sc.Acts = append(sc.Acts, ts.Act{Do: "step", Tid: 1}, ts.Act{Do: "step", Tid: 2})
+		}
+		judge(sc, "corpus-stamp-columns-predeclared")
+	}
 	n := 30
 	if cfg.Thorough() {
 		n = 1500
@@ -158,6 +195,10 @@ func run(cfg lib.Cfg) error {
 				// same shape, one table; different address filters
 				ig.Shape, ig.Table, ig.AddrFlt = "log", "shared", k%2 == 0
 				kind = "shared-table"
+			}
+			if r.Intn(6) == 0 {
+				// the user's table.columns already lists some of the stamp columns
+				ig.PreCols = [][]string{{"ig_name", "src_name"}, {"src_name"}, {"ig_name"}, {"ig_name", "src_name", "block_num"}}[r.Intn(4)]
 			}
 			ig.Sources = []ts.SrcRef{{Name: "main", Start: uint64(r.Range(1, 2))}}
 			if twoSrc && (k == 0 || r.Bool()) {
